@@ -274,6 +274,9 @@ end""", ['s', 'a']),
 ("flip_uninit", "x = 0\nwhile true:\n    y = 1 - y\n    x = x + y\nend", ["x", "y"]),      # D27: sympy summation fails on the whole summand with base -1
 ("init_from_var", "x = 0\ny = x + 1\nz = 0\nwhile true:\n    x = x + 1\n    z = z + y\nend", ["x", "y", "z"]),      # D28: constant defined from the initial value of a loop variable
 ("init_from_random", "b = Bernoulli(1/2)\ny = 2*b + 1\nz = 0\nx = 1\nwhile true:\n    x = 2*x\n    z = z + y*x\nend", ["z", "y", "x"]),
+("init_twice_typer", "c = 5\nc = 0\ns = 0\nwhile true:\n    if c == 0:\n        s = s + 1\n    end\n    c = c\nend", ["s", "c"]),      # D29: the typer used the first of several initial assignments
+("init_twice_const", "x = 0\ny = 5\ny = x + 1\nz = 0\nwhile true:\n    x = x + 1\n    z = z + y\nend", ["z", "y", "x"]),
+("init_reassign_between", "x = 0\ny = 5\nu = y + x\ny = 7\nz = 0\nwhile true:\n    x = x + 1\n    z = z + u + y\nend", ["z", "y", "u"]),
 ("d18_uninit_under_guard", """x = 3
 c = 0
 while c == 1:
